@@ -172,14 +172,14 @@ def main():
     quick = run.quick
     wd = workdir("C12")
     # design level: the range a reader sees is the range the peaks were computed with, in every reachable state
-    for na, rng_, k in ((1, "Ranges6", None), (2, "Ranges6s", 9000 if quick else 300)):
+    for na, rng_, k in ((1, "Ranges6", None), (2, "Ranges6s", 9000 if quick else 900)):
         mc = hvsrobj.cfg_text(na, 3, 6, "Alpha6a", rng_, "NSetA", "MaxItsA", "InitSorted" if k is None else "InitEnv",
                               export=False, invariants=["MetaRangeCurrent", "PeaksCurrent"], props=["CurvesFixed"])
         res, _ = hvsrobj.export_graph(mc, f"C12-mc{na}", {"VERIF_K": k or 1, "VERIF_SEED": run.seed}, timeout=3000)
         run.add_tlc(res, f"HvsrObject NA={na}: MetaRangeCurrent (ReadBack(Write(o)) = o), PeaksCurrent, CurvesFixed")
     total = 0
-    for na, rng_, k, insts in ((1, "Ranges6", 30 if quick else 4, (("N", "N"), ("L", "L"))),
-                               (2, "Ranges6s", 12000 if quick else 700, (("N", "N"), ("L", "L")))):
+    for na, rng_, k, insts in ((1, "Ranges6", 30 if quick else 8, (("N", "N"), ("L", "L"))),
+                               (2, "Ranges6s", 12000 if quick else 2500, (("N", "N"), ("L", "L")))):
         ex = hvsrobj.cfg_text(na, 3, 6, "Alpha6a", rng_, "NSetA", "MaxItsA", "InitEnv", export=True)
         res, graph = hvsrobj.export_graph(ex, f"C12-export{na}", {"VERIF_K": k, "VERIF_SEED": run.seed}, timeout=3000)
         run.add_tlc(res, f"HvsrObject NA={na} export")
